@@ -496,6 +496,43 @@ func isCID(f *sfnt.Font) bool {
 	return ok && o.IsCIDKeyed()
 }
 
+// timestamps through the whole-font writer and reader: every combination of set / unset creation and
+// modification time (at least one set), each value at the boundaries of the format
+func c12FontTimes(r *run.Run) {
+	r.Explore(explore.Config{Name: "C12.font-times"},
+		"Font.Write / sfnt.Read on a font of each outline kind with creation and modification time from {unset, 1904-01-01 00:00:01, 1970, 2038, 2^40 s after 1904} in all combinations with at least one set: both come back unchanged to the second, an unset time stays unset",
+		func(c *explore.Ctx) {
+			kind := c.Choose(3, "outline kind")
+			f, _ := FontFromChoices(gen.FontOpts{NoMeta: true, Compact: true}, kind, 1)
+			f.CreationTime = timeAlts[c.Choose(len(timeAlts), "creation time")]
+			f.ModificationTime = timeAlts[c.Choose(len(timeAlts), "modification time")]
+			if f.CreationTime.IsZero() && f.ModificationTime.IsZero() {
+				c.Skip("no timestamp at all: the writer uses the current time")
+			}
+			desc := fmt.Sprintf("%s created %v modified %v", gen.KindNames[kind], f.CreationTime.UTC(), f.ModificationTime.UTC())
+			c.Sample(func() any { return desc })
+			c.Nontrivial()
+			file, err := writeFont(f)
+			if err != nil {
+				c.Fail("C12.times", "write", "Write fails: %v (%s)", err, desc)
+				return
+			}
+			back, err := sfnt.Read(bytes.NewReader(file))
+			if err != nil {
+				c.Fail("C12.times", "read", "Read(Write(F)) fails: %v (%s)", err, desc)
+				return
+			}
+			c.Outcome(desc)
+			same := func(a, b time.Time) bool { return a.IsZero() == b.IsZero() && a.Unix() == b.Unix() }
+			if !same(f.CreationTime, back.CreationTime) {
+				c.Fail("C12.times", "creation time", "creation time %v comes back as %v (%s)", f.CreationTime.UTC(), back.CreationTime.UTC(), desc)
+			}
+			if !same(f.ModificationTime, back.ModificationTime) {
+				c.Fail("C12.times", "modification time", "modification time %v comes back as %v (%s)", f.ModificationTime.UTC(), back.ModificationTime.UTC(), desc)
+			}
+		})
+}
+
 func init() {
 	Register("C12", func(r *run.Run) {
 		r.Rule = "boundary-value deviations (d<=2) of every Info field via reflection; exhaustive width vectors, caret slopes and version values; derived fields recomputed from definitions on raw bytes"
@@ -503,5 +540,6 @@ func init() {
 		c12Tables(r)
 		c12Hmtx(r)
 		c12Derived(r)
+		c12FontTimes(r)
 	})
 }
